@@ -28,7 +28,9 @@ I64 = 2 ** 63
 BOUND = [b'0', b'1', b'-1', b'2', b'-2', str(I64 - 1).encode(), str(I64).encode(), str(-I64).encode(), str(-I64 - 1).encode(),
          str(2 ** 64 - 1).encode(), str(2 ** 64).encode(), str(2 ** 32).encode(), str(2 ** 31 - 1).encode(), str(-2 ** 31).encode(),
          b'4294967295', b'536870912', b'536870911', b'999999999999999999999999999999', b'-999999999999999999999999999999',
-         b'1e308', b'-1e308', b'1e309', b'nan', b'-nan', b'inf', b'-inf', b'', b' ', b'0x10', b'1.5', b'-0', b'+1', b'9' * 100, b'5', b'-5', b'7', b'8', b'9']
+         b'1e308', b'-1e308', b'1e309', b'nan', b'-nan', b'inf', b'-inf', b'', b' ', b'0x10', b'1.5', b'-0', b'+1', b'9' * 100, b'5', b'-5', b'7', b'8', b'9',
+         # seconds whose milliseconds (x1000) cross the 63 / 64-bit boundaries, and a count that still fits a clock but not 64 bits of ms
+         b'9223372036854775', b'9223372036854776', b'18446744073709551', b'18446744073709552', b'9223372036000000000', b'100000000000000000']
 
 K = b'K'
 # command -> (template, positions that carry a number/size/index/count/time/cursor/score)
@@ -91,6 +93,17 @@ class Probe:
         self.s.cmd(c, [b'SELECT', b'15'])
         self.s.cmd(c, [b'GET', b'sentinel'])
         self.s.cmd(c, [b'LRANGE', b'sentinel-list', b'0', b'-1'])
+        if self.n % 4 == 0 and c in self.s.clients:
+            # whatever state the hostile commands left behind (extreme deadlines, huge or odd values) must also survive being
+            # written out: a snapshot now and then (SAVE answers OK or an error; the process must stay up)
+            r = self.s.clients[c].call([b'SAVE'], 20.0)
+            self.tr.emit({'k': 'hostile', 'argv': [list(b'SAVE')], 'r': resp.to_json(r)})
+            if r[0] in ('none', 'closed'):
+                self.wedged = r[0] == 'none'
+                if c in self.s.clients:
+                    self.s.close(c)
+                return not self.wedged and self.srv.alive()
+            self.s.cmd(c, [b'GET', b'sentinel'])
         if c in self.s.clients:
             self.s.close(c)
         return True
